@@ -14,6 +14,7 @@ import fcntl, hashlib, json, os, re, subprocess, sys, time
 ROOT = os.path.dirname(os.path.dirname(os.path.abspath(__file__)))
 sys.path.insert(0, os.path.join(ROOT, "tools"))
 import extract  # noqa: E402
+import gen_main  # noqa: E402
 import props as P  # noqa: E402
 
 REPO = os.environ.get("VERIF_REPO", "/repo")
@@ -271,6 +272,7 @@ def check_property(prop, tier, seed, replay=None):
 
     # ---- 3. proofs
     mods = cfg.get("lean_modules", [])
+    gen_main.run()
     ok_drv, drv_log = lake_build(["svdriver"])
     if not ok_drv:
         obligations.append(("build:svdriver", False, drv_log[-1500:]))
@@ -483,6 +485,7 @@ def setup():
                 print(f"setup: build {futs[fu]} failed:\n{err}", file=sys.stderr)
                 rc = 1
     problems, _ = extract.run(harness_bin([]))
+    gen_main.run()
     if problems:
         print(f"setup: extractor problems: {problems}", file=sys.stderr)
     ok, out = lake_build([])
